@@ -173,6 +173,13 @@ func c17JSONMember(v rv.V) rv.V {
 			return rv.S("unreadable number: " + x.String())
 		}
 		return rv.Fl(fl)
+	case []any:
+		// JSON_OBJECT embeds a text that is a JSON array (the value of JSON_AGG) as an array: back to the text
+		b, err := json.Marshal(x)
+		if err != nil {
+			return rv.S(fmt.Sprintf("unexpected member %v", e))
+		}
+		return rv.S(string(b))
 	}
 	return rv.S(fmt.Sprintf("unexpected member %v", e))
 }
